@@ -19,7 +19,7 @@ import torch_frame
 from torch_frame import TensorFrame, stype
 from torch_frame.data import Dataset
 
-TOL = 1e-9          # cross-batch comparisons (float64); same-batch comparisons are bit-exact
+TOL = 1e-9          # cross-batch comparisons (float64, relative to max(1, |out|)); same-batch comparisons are bit-exact
 
 
 @contextlib.contextmanager
@@ -202,6 +202,16 @@ def randomize_params(model, scale=0.5):
     return model
 
 
+def redraw_params(model, t):
+    """Fresh, mild parameters for completeness trial t >= 1: re-initialise, then add small generic noise.  (Noise
+    must not accumulate over trials: large attention weights saturate the softmax and a saturated softmax gives
+    exactly-zero weight to most columns, hiding their influence.)"""
+    model.reset_parameters()
+    randomize_params(model, [0.05, 0.15, 0.3][t % 3])
+    model.eval()
+    return model
+
+
 def fwd(model, tf):
     with torch.no_grad():
         return model(tf)
@@ -266,7 +276,8 @@ def maxdiff(a, b):
     d = (a - b).abs()
     if torch.isnan(d).any():
         return float("inf")
-    return float(d.max())
+    # relative to the magnitude of the outputs (generic parameters can make them large)
+    return float(d.max()) / max(1.0, float(a.abs().max()), float(b.abs().max()))
 
 
 # ------------------------------------------------------------------ Coq printers
